@@ -2,6 +2,7 @@ package p32
 
 import (
 	"fmt"
+	"github.com/bits-and-blooms/bitset"
 	"runtime"
 	"testing"
 	"unsafe"
@@ -242,6 +243,35 @@ func propC16Dense(t *rapid.T) {
 	if got := setOfDense(dense); !got.Equal(m) {
 		t.Fatalf("ToDense bits differ: %s [%s]", model.Diff(m, got), desc)
 	}
+	// the returned vector belongs to the caller: it does not follow later changes of the bitmap, and writing to it
+	// does not change the bitmap
+	if len(dense) > 0 && !m.IsEmpty() {
+		snapshot := append([]uint64(nil), dense...)
+		c := b.Clone()
+		probe := uint32(m.Min())
+		c2 := b // the bitmap itself is used below: work on it only through reversible steps
+		c2.Remove(probe)
+		c2.Add(probe ^ 1)
+		for i := range dense {
+			if dense[i] != snapshot[i] {
+				t.Fatalf("the vector returned by ToDense changed when the bitmap was modified afterwards (word %d) [%s]", i, desc)
+			}
+		}
+		if m.Contains(uint64(probe ^ 1)) {
+			// it was there before
+		} else {
+			c2.Remove(probe ^ 1)
+		}
+		c2.Add(probe)
+		for i := range dense {
+			dense[i] = ^dense[i]
+		}
+		if diff := live.Check(b, m); diff != "" {
+			t.Fatalf("writing to the vector returned by ToDense changed the bitmap: %s [%s]", diff, desc)
+		}
+		copy(dense, snapshot)
+		_ = c
+	}
 	wd := make([]uint64, wantWords)
 	b.WriteDenseTo(wd)
 	if got := setOfDense(wd); !got.Equal(m) {
@@ -256,6 +286,32 @@ func propC16Dense(t *rapid.T) {
 				t.Fatalf("FromBitSet(ToBitSet) differs: %s [%s]", d, desc)
 			}
 		}
+	}
+	// a bit set made by the caller: its length need not be a multiple of 64, the top bits sit in a partial last word
+	{
+		n := uint(rapid.SampledFrom([]int{1, 63, 64, 65, 100, 1000, 65536 + 10, 3*65536 + 4097}).Draw(t, "bitsetLen"))
+		bsx := bitset.New(n)
+		bm := model.New()
+		for _, pos := range []uint{0, n - 1, n / 2, (n - 1) &^ 63, n / 3} {
+			if pos < n {
+				bsx.Set(pos)
+				bm.Add(uint64(pos))
+			}
+		}
+		if rapid.Bool().Draw(t, "bitsetBlock") && n > 200 {
+			for pos := n - 150; pos < n; pos += 2 {
+				bsx.Set(pos)
+				bm.Add(uint64(pos))
+			}
+		}
+		back := roaring.FromBitSet(bsx)
+		if back == nil {
+			t.Fatalf("FromBitSet(bit set of length %d) returned nil", n)
+		}
+		if d := live.Check(back, bm); d != "" {
+			t.Fatalf("FromBitSet(bit set of length %d with bits %s) differs: %s", n, bm, d)
+		}
+		inst.Count("C16", "frombitset-own-bitset")
 	}
 	// FromDense(ToDense) = id, both copy modes
 	for _, cp := range []bool{true, false} {
